@@ -1,6 +1,6 @@
 (* Proofs about Model/TransferBytes.v (C01). *)
 From Coq Require Import ZArith Bool Arith String List Lia.
-From Verif Require Import Lib.Sx Lib.Facts Model.Bytes Model.TransferBytes Proofs.Bytes.
+From Verif Require Import Lib.Sx Lib.Facts Lib.XferFacts Model.Bytes Model.TransferBytes Proofs.Bytes.
 Import ListNotations.
 Open Scope string_scope.
 Open Scope list_scope.
@@ -646,3 +646,86 @@ Proof.
   - rewrite He. apply check_exempt_sound. reflexivity.
   - exact He.
 Qed.
+
+Lemma check_xfer_verb_modes : forall f, check_xfer_facts f = true ->
+  verb_mode f "stor" = Some WB /\ verb_mode f "appe" = Some AB.
+Proof.
+  intros f H. unfold check_xfer_facts, check_xfer_modes in H. rewrite !andb_true_iff in H.
+  destruct H as [[Hs Ha] _]. apply String.eqb_eq in Hs. apply String.eqb_eq in Ha.
+  unfold verb_mode. rewrite Hs, Ha. split; reflexivity.
+Qed.
+
+Lemma verb_mode_store : forall f verb vm, check_xfer_facts f = true ->
+  verb_mode f verb = Some vm -> store_mode vm /\ (verb = "stor" /\ vm = WB \/ verb = "appe" /\ vm = AB).
+Proof.
+  intros f verb vm Hc Hv. destruct (check_xfer_verb_modes f Hc) as [Hs Ha].
+  unfold verb_mode in *. cbn [String.eqb Ascii.eqb Bool.eqb] in Hs, Ha.
+  destruct (String.eqb verb "stor") eqn:E1.
+  - apply String.eqb_eq in E1. subst verb. rewrite Hs in Hv. injection Hv as <-.
+    split; [left; reflexivity|left; split; reflexivity].
+  - destruct (String.eqb verb "appe") eqn:E2; [|discriminate].
+    apply String.eqb_eq in E2. subst verb. rewrite Ha in Hv. injection Hv as <-.
+    split; [right; reflexivity|right; split; reflexivity].
+Qed.
+
+(* ------------------------------------------------------------------------------------------ *)
+(* the theorems with the structural hypotheses replaced by the closed checks on the extracted facts *)
+Section Checked.
+  Variables (ws : list worker) (hs : list handler) (d : dispatcher_facts) (f : xfer_facts).
+  Hypothesis Hdisp : check_dispatch_facts ws hs d = true.
+  Hypothesis Hxfer : check_xfer_facts f = true.
+
+  Theorem stor_exact_checked : forall sw verb vm off old block payload segs oracle,
+    find_worker "stor_worker" ws = Some sw ->
+    verb_mode f verb = Some vm ->
+    1 <= block ->
+    concat segs = payload ->
+    e2e_stor (w_open_modes sw) vm off old block segs oracle = Some (spec_store vm off payload old).
+  Proof.
+    intros sw verb vm off old block payload segs oracle Hsw Hvm Hb Hs.
+    destruct (check_dispatch_facts_sound _ _ _ Hdisp) as [[sw' [Hsw' [Ht _]]] _].
+    rewrite Hsw in Hsw'. injection Hsw' as <-.
+    destruct (verb_mode_store _ _ _ Hxfer Hvm) as [Hst _].
+    now apply stor_exact.
+  Qed.
+
+  Theorem retr_exact_checked : forall rw off content block foracle cuts cblock coracle,
+    find_worker "retr_worker" ws = Some rw ->
+    1 <= block -> 1 <= cblock ->
+    e2e_retr (w_open_modes rw) off content block foracle cuts cblock coracle
+    = Some (spec_retr off content).
+  Proof.
+    intros rw off content block foracle cuts cblock coracle Hrw Hb Hcb.
+    destruct (check_dispatch_facts_sound _ _ _ Hdisp) as [_ [[rw' [Hrw' [Ht _]]] _]].
+    rewrite Hrw in Hrw'. injection Hrw' as <-.
+    now apply retr_exact.
+  Qed.
+
+  Theorem visible_after_226_checked : forall sw verb vm ctx m off old block payload segs oracle flushes,
+    find_worker "stor_worker" ws = Some sw ->
+    w_ctx sw = [ctx] ->
+    verb_mode f verb = Some vm ->
+    1 <= block -> concat segs = payload ->
+    select_mode (w_open_modes sw) vm (negb (off =? 0)) = Some m ->
+    v_at_reply (v_run old (stor_script (w_reply_after_ctx sw) ctx m off
+                                       (iter_blocks (sock_trace block oracle segs)) flushes))
+    = Some (spec_store vm off payload old, false).
+  Proof.
+    intros sw verb vm ctx m off old block payload segs oracle flushes Hsw Hctx Hvm Hb Hs Hm.
+    destruct (check_dispatch_facts_sound _ _ _ Hdisp) as [[sw' [Hsw' [Ht [Hra Hc]]]] _].
+    rewrite Hsw in Hsw'. injection Hsw' as <-. rewrite Hra.
+    rewrite Hctx in Hc. injection Hc as ->.
+    destruct (verb_mode_store _ _ _ Hxfer Hvm) as [Hst _].
+    apply visible_after_226 with (table := w_open_modes sw) (block := block); try assumption.
+    - rewrite <- Hs. now apply sock_trace_conforming.
+    - reflexivity.
+  Qed.
+
+  Theorem rest_survives_checked : forall hist off0 passive verb off,
+    transfer_verb verb ->
+    offset_after (d_reset_exempt d) (hist ++ get_stream_cmds passive verb off) off0 = off.
+  Proof.
+    intros. destruct (check_dispatch_facts_sound _ _ _ Hdisp) as [_ [_ [_ [He _]]]].
+    now apply rest_survives.
+  Qed.
+End Checked.
